@@ -32,6 +32,12 @@ fn payload(rng: &mut Rng) -> Vec<u8> {
 /// delivery (reordering, duplication, loss) of the deltas; every delta value and every stored
 /// value goes into the pool
 pub fn reachable_pool(rng: &mut Rng, steps: usize, out: &mut Out) -> Vec<ReplicatedValue> {
+    reachable_pool_keyed(rng, steps, out).into_iter().map(|(_, v)| v).collect()
+}
+
+/// the same pool, every value with the key it belongs to (what `C07.Reach c k` ranges over: the
+/// deltas issued for `k` and the values stored under `k`, on any node)
+pub fn reachable_pool_keyed(rng: &mut Rng, steps: usize, out: &mut Out) -> Vec<(String, ReplicatedValue)> {
     let n = rng.range(2, 3) as usize;
     let level = if rng.chance(1, 3) {
         ConsistencyLevel::Causal
@@ -84,7 +90,7 @@ pub fn reachable_pool(rng: &mut Rng, steps: usize, out: &mut Out) -> Vec<Replica
             }
         };
         if let Some(d) = d {
-            pool.push(d.value.clone());
+            pool.push((d.key.clone(), d.value.clone()));
             for to in 0..n {
                 if to != i && !rng.chance(1, 8) {
                     inflight.push((to, d.clone()));
@@ -96,8 +102,8 @@ pub fn reachable_pool(rng: &mut Rng, steps: usize, out: &mut Out) -> Vec<Replica
         // (sorted: the pool order decides later random picks, and a HashMap's order is per-process)
         let mut kv: Vec<(&String, &ReplicatedValue)> = nd.replicated_keys.iter().collect();
         kv.sort_by(|a, b| a.0.cmp(b.0));
-        for (_, v) in kv {
-            pool.push(v.clone());
+        for (k, v) in kv {
+            pool.push((k.clone(), v.clone()));
         }
     }
     pool
@@ -161,6 +167,67 @@ pub fn random_value(rng: &mut Rng) -> MRv {
         r: rng.range(1, 3),
         rf: if rng.chance(1, 4) { Some(rng.range(1, 5) as u8) } else { None },
     }
+}
+
+/// numbers at which a narrower integer type / a signed or float conversion would change a
+/// comparison or a maximum (counts stay ≤ 2^53 so that `value()` sums cannot overflow u64)
+const EDGE_COUNTS: [u64; 6] = [(1 << 31) - 1, 1 << 31, (1 << 32) - 1, 1 << 32, (1 << 32) + 1, 1 << 53];
+const EDGE_TIMES: [u64; 8] = [(1 << 32) - 1, 1 << 32, (1 << 32) + 1, 1 << 53, (1 << 63) - 1, 1 << 63, u64::MAX - 1, u64::MAX];
+
+fn widen_map(rng: &mut Rng, m: &mut BTreeMap<u64, u64>) {
+    for v in m.values_mut() {
+        if rng.chance(1, 2) {
+            *v = *rng.pick(&EDGE_COUNTS);
+        }
+    }
+}
+
+/// `random_value` pushed to the edges: counts / Lamport times / expiries at integer-width
+/// boundaries (two operands often draw the SAME edge or neighbours), hashes with more fields than
+/// any small-collection fast path would hold (33..40)
+pub fn random_value_wide(rng: &mut Rng) -> MRv {
+    let mut m = random_value(rng);
+    match &mut m.crdt {
+        MCrdt::Lww(l) => {
+            if rng.chance(1, 2) {
+                l.t = *rng.pick(&EDGE_TIMES);
+            }
+        }
+        MCrdt::G(c) => widen_map(rng, c),
+        MCrdt::P(p, n) => {
+            widen_map(rng, p);
+            widen_map(rng, n);
+        }
+        MCrdt::S(_) => {}
+        MCrdt::O(_, next) => widen_map(rng, next),
+        MCrdt::H(h) => {
+            if rng.chance(1, 2) {
+                for i in 0..rng.range(33, 40) {
+                    if rng.chance(5, 6) {
+                        h.insert(format!("f{:02}", i), rand_lww(rng));
+                    }
+                }
+            }
+            for l in h.values_mut() {
+                if rng.chance(1, 6) {
+                    l.t = *rng.pick(&EDGE_TIMES);
+                }
+            }
+        }
+    }
+    if let Some(vc) = &mut m.vc {
+        widen_map(rng, vc);
+    }
+    if rng.chance(1, 3) {
+        m.t = *rng.pick(&EDGE_TIMES);
+    }
+    if rng.chance(1, 4) {
+        m.exp = Some(*rng.pick(&EDGE_TIMES));
+    }
+    if rng.chance(1, 6) {
+        m.rf = Some(*rng.pick(&[0u8, 1, 127, 128, 255]));
+    }
+    m
 }
 
 /// counters / sets built through the public CRDT API
@@ -240,6 +307,14 @@ fn emit_merge(out: &mut Out, a: &ReplicatedValue, b: &ReplicatedValue) -> Replic
 }
 
 fn check_triple(out: &mut Out, a: &ReplicatedValue, b: &ReplicatedValue, c: &ReplicatedValue, src: &str) {
+    check_triple_keyed(out, a, b, c, src, false)
+}
+
+/// `same_key_ab`: `a` and `b` are values one cluster produced for ONE key (deltas, stored values,
+/// merges of those).  `C07.reachable_tie_consistent` proves that such a pair is tie-consistent, so
+/// for them commutativity is checked with NO exclusion, and a tie-inconsistent pair is itself a
+/// violation (the real replicas issued one stamp for two different writes / kinds).
+fn check_triple_keyed(out: &mut Out, a: &ReplicatedValue, b: &ReplicatedValue, c: &ReplicatedValue, src: &str, same_key_ab: bool) {
     let (ma, mb, mc) = (MRv::from_real(a), MRv::from_real(b), MRv::from_real(c));
     let replay = |what: &str| json!({"law": what, "a": ma.show(), "b": mb.show(), "c": mc.show(), "source": src});
     // correspondence ops (incl. merges of merges)
@@ -282,8 +357,20 @@ fn check_triple(out: &mut Out, a: &ReplicatedValue, b: &ReplicatedValue, c: &Rep
                 out.violation(&format!("C07:comm:{}:{}", if ma.crdt.kind() == mb.crdt.kind() { "same-kind" } else { "cross-kind" }, diff_fields(&mab, &mba)),
                     "merge(a,b) != merge(b,a) on the real code for a tie-consistent pair", replay("commutativity"));
             }
+        } else if same_key_ab {
+            out.violation(&format!("C07:reach:tie-inconsistent:{}", if ma.crdt.kind() == mb.crdt.kind() { "same-kind" } else { "cross-kind" }),
+                "two values the real replicas produced for ONE key (deltas / stored values / merges) carry the same stamp with different contents or kinds — reachable_tie_consistent says this cannot happen", replay("reachable-tie-consistency"));
         } else {
             out.count("excluded:tie-inconsistent-pair");
+        }
+        if same_key_ab {
+            out.count("reach:same-key-pair");
+            if ma.crdt.kind() != mb.crdt.kind() {
+                out.count("reach:same-key-pair:cross-kind");
+            }
+            if ma.t == mb.t && ma != mb {
+                out.count("reach:same-key-pair:equal-time");
+            }
         }
     }
     // … seen through the public accessors only (what a client or a peer can call)
@@ -793,15 +880,25 @@ pub fn run(a: &Args) {
     while done < a.n {
         // one pool per round
         let mut pool: Vec<(ReplicatedValue, &'static str)> = Vec::new();
+        // the key a reachable value (or a merge of reachable values of one key) belongs to
+        let mut keyof: Vec<Option<String>> = Vec::new();
         let steps = rng.range(5, 30) as usize;
-        for v in reachable_pool(&mut rng, steps, &mut out) {
+        for (k, v) in reachable_pool_keyed(&mut rng, steps, &mut out) {
             pool.push((v, "reachable"));
+            keyof.push(Some(k));
         }
-        for _ in 0..6 {
-            pool.push((random_value(&mut rng).to_real(), "random"));
+        for i in 0..6 {
+            if i < 4 {
+                pool.push((random_value(&mut rng).to_real(), "random"));
+            } else {
+                out.count("gen:random-value-at-integer-width-boundaries/big-hash");
+                pool.push((random_value_wide(&mut rng).to_real(), "random-wide"));
+            }
+            keyof.push(None);
         }
         for _ in 0..4 {
             pool.push((api_crdt_value(&mut rng), "crdt-api"));
+            keyof.push(None);
         }
         lattice_api(&mut out, &mut rng, &pool);
         let rounds = 12;
@@ -818,14 +915,23 @@ pub fn run(a: &Args) {
             } else {
                 (rng.below(pool.len() as u64) as usize, rng.below(pool.len() as u64) as usize)
             };
+            // over-sample pairs of ONE key (the domain of the `reachable_*` theorems)
+            let j = if keyof[i].is_some() && rng.chance(1, 2) {
+                let c: Vec<usize> = (0..pool.len()).filter(|x| keyof[*x] == keyof[i]).collect();
+                *rng.pick(&c)
+            } else {
+                j
+            };
             let src = format!("{}/{}/{}", pool[i].1, pool[j].1, pool[k].1);
             out.count(&format!("source:{}", pool[i].1));
-            check_triple(&mut out, &pool[i].0.clone(), &pool[j].0.clone(), &pool[k].0.clone(), &src);
+            let same_key = keyof[i].is_some() && keyof[i] == keyof[j];
+            check_triple_keyed(&mut out, &pool[i].0.clone(), &pool[j].0.clone(), &pool[k].0.clone(), &src, same_key);
             done += 1;
             // feed merges back so nested merge results are inputs too
             if rng.chance(1, 3) {
                 let m = pool[i].0.merge(&pool[j].0);
                 pool.push((m, "merged"));
+                keyof.push(if same_key { keyof[i].clone() } else { None });
             }
         }
     }
